@@ -23,7 +23,9 @@ type lockModel struct {
 	locks    map[*ssa.Function]bool // fn acquires the lock somewhere (directly or through a wrapper)
 	entry    map[*ssa.Function]bool // lock held on entry (unexported, all call sites hold it)
 	deferred map[*ssa.Function]*ssa.Defer
-	guarded  map[int]string // field -> example write site
+	// deferTarget: methods invoked through `defer recv.m()`; they run at frame exit in whatever state the frame left
+	deferTarget map[*ssa.Function]bool
+	guarded     map[int]string // field -> example write site
 }
 
 func mutexField(st *types.Struct) int {
@@ -43,7 +45,7 @@ func newLockModel(c *Ctx, H *types.Named) *lockModel {
 	}
 	m := &lockModel{c: c, H: H, st: st, mtxF: mutexField(st), recvOf: map[*ssa.Function]ssa.Value{}, ctorOf: map[*ssa.Function]bool{},
 		acquire: map[*ssa.Function]bool{}, release: map[*ssa.Function]bool{}, locks: map[*ssa.Function]bool{}, entry: map[*ssa.Function]bool{},
-		deferred: map[*ssa.Function]*ssa.Defer{}, guarded: map[int]string{}}
+		deferred: map[*ssa.Function]*ssa.Defer{}, deferTarget: map[*ssa.Function]bool{}, guarded: map[int]string{}}
 	if m.mtxF < 0 {
 		return nil
 	}
@@ -283,6 +285,22 @@ func (m *lockModel) held(fn *ssa.Function, in ssa.Instruction) bool {
 		}
 	}
 	return false
+}
+
+func (m *lockModel) heldWhenDeferredRuns(p *ssa.Function, d *ssa.Defer) bool {
+	if m.entry[p] {
+		return !m.hasExplicitUnlock(p)
+	}
+	if !m.held(p, d) {
+		return false
+	}
+	ok := false
+	allInstrs(p, func(x ssa.Instruction) {
+		if du, isD := x.(*ssa.Defer); isD && m.isUnlock(p, du) && instrDominates(du, d) {
+			ok = true
+		}
+	})
+	return ok && !m.hasExplicitUnlock(p)
 }
 
 func (m *lockModel) hasExplicitUnlock(fn *ssa.Function) bool {
@@ -542,8 +560,13 @@ func (m *lockModel) computeEntry() {
 						}
 					}
 				} else if _, isM := m.recvOf[s.fn]; isM {
-					if _, isDefer := s.in.(*ssa.Defer); !isDefer {
+					if d, isDefer := s.in.(*ssa.Defer); !isDefer {
 						ok = m.held(s.fn, s.in)
+					} else {
+						// a deferred method call runs at the frame's exit: the lock is still held iff it was
+						// held when the defer was registered and its release is itself deferred earlier
+						ok = m.heldWhenDeferredRuns(s.fn, d)
+						m.deferTarget[fn] = true
 					}
 				}
 				if !ok {
